@@ -6,9 +6,9 @@ package props
 //  (c) integration on Layer B: real rollbackMitigation polling OBSERVE_SEQNO on a multi-node simnode
 
 import (
-	"os"
 	"encoding/json"
 	"fmt"
+	"os"
 	"strings"
 	"sync"
 	"sync/atomic"
